@@ -276,7 +276,7 @@ class TxDriver:
 
     def settle(self):
         # run 0-delay calls and queued writes (_QUEUED_WRITE_DELAY=1e-5) without material time passing
-        for _ in range(10000):
+        for _ in range(400000):
             nxt = self.next_deadline()
             if nxt is None or nxt > self.clock.seconds() + 1e-4:
                 return
@@ -387,7 +387,7 @@ class AioDriver:
 
     def settle(self):
         lp = self.loop
-        for _ in range(10000):
+        for _ in range(400000):
             due = lp._scheduled and any((not h._cancelled) and h._when <= lp._vtime + 1e-4 for h in lp._scheduled)
             if not lp._ready and not due:
                 return
